@@ -1,5 +1,5 @@
 (** The flag of one ALTER TABLE is the conjunction over its arms, and its reverse holds the inverse of
-    every arm, last arm first (MySQL: except the AddAttr/DropAttr arms -- the known finding). *)
+    every arm, last arm first. *)
 From Coq Require Import List NArith Bool Arith Lia.
 From Atlas Require Import Base.Bytes Lex.DownAlterModel.
 Import ListNotations.
@@ -20,7 +20,8 @@ Proof.
     + destruct b; simpl; destruct (IH acc false) as [H1 H2]; (split; [exact H1|]); intros H; rewrite H1 in H; discriminate.
     + destruct (IH (acc ++ [a]) false) as [H1 H2]. split; [now rewrite H1, andb_false_r|].
       intros H. rewrite H1 in H. discriminate.
-    + destruct (IH acc b) as [H1 H2]. split; [exact H1|exact H2].
+    + destruct (IH acc false) as [H1 H2]. split; [now rewrite H1, andb_false_r|].
+      intros H. rewrite H1 in H. discriminate.
 Qed.
 
 Lemma alter_reverse_spec arms :
@@ -60,13 +61,11 @@ Proof.
   now rewrite H1, IH.
 Qed.
 
-Definition not_attr (a : arm) : bool := match a_kind a with KAttr => false | _ => true end.
-
 Lemma inverse_all arms :
-  forallb arm_reversible arms = true -> forallb not_attr arms = true -> filter arm_has_inverse arms = arms.
+  forallb arm_reversible arms = true -> filter arm_has_inverse arms = arms.
 Proof.
-  intros R N. apply filter_all. rewrite forallb_forall in *. intros a Ha.
-  specialize (R a Ha). specialize (N a Ha). unfold arm_reversible, not_attr, arm_has_inverse in *.
+  intros R. apply filter_all. rewrite forallb_forall in *. intros a Ha.
+  specialize (R a Ha). unfold arm_reversible, arm_has_inverse in *.
   destruct (a_kind a); try reflexivity; discriminate.
 Qed.
 
@@ -82,12 +81,11 @@ Proof.
 Qed.
 
 Lemma alter_complete_lemma arms r :
-  forallb not_attr arms = true ->
   (alterTable_mysql arms = Some r -> r = rev arms) /\
   (alterTable_postgres arms = Some r -> r = rev (pg_sorted arms)).
 Proof.
-  intros N. rewrite alter_mysql_lemma, alter_postgres_lemma.
+  rewrite alter_mysql_lemma, alter_postgres_lemma.
   destruct (forallb arm_reversible arms) eqn:R; split; intros H; try discriminate; inversion H.
-  - now rewrite (inverse_all arms R N).
-  - rewrite inverse_all; [reflexivity| |]; now rewrite forallb_pg_sorted.
+  - now rewrite (inverse_all arms R).
+  - rewrite inverse_all; [reflexivity|]. now rewrite forallb_pg_sorted.
 Qed.
